@@ -687,13 +687,12 @@ class DiHypergraph:
                     warn(f"uid {idx} already exists, cannot add edge {members}.")
                     continue
 
-                if isinstance(members, (tuple, list)):
-                    tail = members[0]
-                    head = members[1]
-                else:
+                if not isinstance(members, (tuple, list)):
                     raise XGIError("Directed edge must be a list or tuple!")
 
                 try:
+                    tail = list(members[0])
+                    head = list(members[1])
                     self._edge[idx] = {"in": set(tail), "out": set(head)}
                 except TypeError as e:
                     raise XGIError("Invalid ebunch format") from e
@@ -756,8 +755,8 @@ class DiHypergraph:
                 warn(f"uid {idx} already exists, cannot add edge {members}.")
             else:
                 try:
-                    tail = members[0]
-                    head = members[1]
+                    tail = list(members[0])
+                    head = list(members[1])
                     self._edge[idx] = {"in": set(tail), "out": set(head)}
                 except TypeError as e:
                     raise XGIError("Invalid ebunch format") from e
